@@ -35,21 +35,22 @@ type v6cfg struct {
 	na, pd         bool
 	integrated     bool
 	depth, nodedup int
+	budget         time.Duration
 }
 
 func v6configs(thorough bool) []v6cfg {
 	if thorough {
 		return []v6cfg{
-			{"legacy na+pd k3", 3, true, true, false, 6, 3},
-			{"legacy na-only k3", 3, true, false, false, 6, 0},
-			{"legacy pd-only k3", 3, false, true, false, 6, 0},
-			{"integrated na+pd k3", 3, true, true, true, 6, 3},
+			{"legacy na+pd k3", 3, true, true, false, 6, 3, 4 * time.Minute},
+			{"legacy na-only k3", 3, true, false, false, 6, 0, 90 * time.Second},
+			{"legacy pd-only k3", 3, false, true, false, 6, 0, 90 * time.Second},
+			{"integrated na+pd k3", 3, true, true, true, 6, 2, 3 * time.Minute},
 		}
 	}
 	return []v6cfg{
-		{"legacy na+pd k2", 2, true, true, false, 5, 2},
-		{"legacy pd-only k2", 2, false, true, false, 4, 0},
-		{"integrated na+pd k2", 2, true, true, true, 4, 2},
+		{"legacy na+pd k2", 2, true, true, false, 5, 2, 5 * time.Minute},
+		{"legacy pd-only k2", 2, false, true, false, 4, 0, 2 * time.Minute},
+		{"integrated na+pd k2", 2, true, true, true, 4, 2, 2 * time.Minute},
 	}
 }
 
